@@ -1,7 +1,34 @@
 package main
 
+import (
+	"os"
+	"path/filepath"
+	"strings"
+)
+
 // extraOverlayFiles returns overlay entries beyond the clock rewrite:
-// deterministic-map runtime files and overlay-added export shims.
+// overlay-ADDED export shims (files under /verif/sim/overlay_add/<path under
+// /repo>, package of the SUT, build tag verif, aliases and thin wrappers only)
+// and, for engines that need it, the deterministic-map runtime files.
 func extraOverlayFiles(work string) (map[string]string, error) {
-	return map[string]string{}, nil
+	out := map[string]string{}
+	root := filepath.Join(simDir, "overlay_add")
+	err := filepath.Walk(root, func(p string, info os.FileInfo, err error) error {
+		if err != nil {
+			if os.IsNotExist(err) {
+				return nil
+			}
+			return err
+		}
+		if info.IsDir() || !strings.HasSuffix(p, ".go") {
+			return nil
+		}
+		rel, _ := filepath.Rel(root, p)
+		out[filepath.Join(repoDir, rel)] = p
+		return nil
+	})
+	if err != nil && !os.IsNotExist(err) {
+		return nil, err
+	}
+	return out, nil
 }
